@@ -40,6 +40,7 @@ func init() {
 			{Name: "processor-creation-order", Run: c10ProcOrder, Workers: 4, QuickS: 30, ThoroughS: 120},
 			{Name: "factory-processor-view", Run: c10FPPView, Workers: 4, QuickS: 30, ThoroughS: 120},
 			{Name: "failing-runner-orders", Run: c10FailingRunner, Workers: 4, QuickS: 30, ThoroughS: 120},
+			{Name: "optional-pointer-slices", Run: c10OptPtrSlices, Workers: 4, QuickS: 60, ThoroughS: 120},
 		},
 	})
 }
@@ -927,5 +928,76 @@ func c10FailingRunner(c *core.Ctx) {
 			c.Outcome("failing-runner/fails-under-every-order")
 		}
 		c.Sample(map[string]any{"case": cs, "orders": factorialInt(cs.N)})
+	})
+}
+
+// ---- optional pointer-typed slices of which one candidate is substituted by an object of another
+// type: what such a point ends up holding is the same under every enumeration order
+
+func c10OptPtrSlices(c *core.Ctx) {
+	type oc struct {
+		Edges [][]int `json:"edges"`
+		Wrap  []int   `json:"wrap"`
+	}
+	gen := func(yield func(oc) bool) {
+		allGraphs(3, []int{scen.ENone, scen.ESlicePtr}, false, func(e [][]int) bool {
+			any := false
+			for i := range e {
+				for _, k := range e[i] {
+					any = any || k != scen.ENone
+				}
+			}
+			if !any {
+				return true
+			}
+			for node := 0; node < 3; node++ {
+				for _, plan := range []int{scen.WrapAfter, scen.WrapBefore} {
+					w := []int{0, 0, 0}
+					w[node] = plan
+					if !yield(oc{e, w}) {
+						return false
+					}
+				}
+			}
+			return true
+		})
+	}
+	Cases(c, gen, func(c *core.Ctx, cs oc) {
+		sigs := map[string][]int{}
+		first := ""
+		for k, base := range perms(3) {
+			p := &scen.GraphProg{N: 3, Edges: cs.Edges, Wrap: cs.Wrap, SliceOpt: true, Base: base, Obs: 1, Family: "optional-pointer-slices"}
+			o := scen.RunGraph(p, envx.Fixed("", nil))
+			c.S.Evaluations++
+			c.S.States++
+			c.S.Transitions += int64(o.Trace.Calls)
+			sig := graphWiringSig(o)
+			if o.Panic != "" || o.Abort != "" {
+				sig = "panic/abort"
+			}
+			if k == 0 {
+				first = sig
+			}
+			if _, ok := sigs[sig]; !ok {
+				sigs[sig] = base
+			}
+		}
+		c.S.Programs++
+		c.S.Nontrivial++
+		if len(sigs) > 1 {
+			var other string
+			for s := range sigs {
+				if s != first {
+					other = s
+				}
+			}
+			c.Outcome("optional-pointer-slices/order-dependent")
+			c.Report("C10/optptr/"+core.Hash(cs), "order-dependent", fmt.Sprintf("graph %v with optional []*T points, substitution plan %v: outcome %q under the identity order, %q under order %v", cs.Edges, cs.Wrap, first, other, sigs[other]), cs)
+			return
+		}
+		c.Outcome("optional-pointer-slices/same-under-every-order")
+		if c.S.Programs%50 == 1 {
+			c.Sample(map[string]any{"case": cs, "outcome": first})
+		}
 	})
 }
